@@ -7,6 +7,7 @@ import (
 	"fmt"
 	"go/constant"
 	"go/token"
+	"go/types"
 	"sort"
 	"strings"
 
@@ -599,6 +600,113 @@ func locAll(c *Ctx, a *flAgg) {
 		} else {
 			a.bad("LOC-all", "Signature.updateLocations", "a path updates only one of the two stacks", fn.Pos())
 		}
+	}
+	locFilesAll(c, a)
+	locSplitRunes(c, a)
+}
+
+// locFilesAll (LOC-all/getFiles): the files the roots are searched from are
+// the files of all frames: every iteration of the innermost loop of getFiles
+// records its frame's RemoteSrcPath, whatever its name looks like. A root
+// under which the dump only has assembly or C files is otherwise never
+// detected, and those frames stay unresolved although they exist locally.
+func locFilesAll(c *Ctx, a *flAgg) {
+	fn := c.L.Func("stack", "", "getFiles")
+	if fn == nil {
+		return
+	}
+	exprHome = fn.Pkg.Pkg
+	var inner *loopInfo
+	for _, l := range naturalLoops(fn) {
+		// the innermost loop that contains a map update or an append
+		has := false
+		for b := range l.Body {
+			for _, in := range b.Instrs {
+				if _, ok := in.(*ssa.MapUpdate); ok {
+					has = true
+				}
+			}
+		}
+		if has && (inner == nil || len(l.Body) < len(inner.Body)) {
+			inner = l
+		}
+	}
+	if inner == nil {
+		a.und("LOC-all", "getFiles", "the loop recording the files was not found", fn.Pos())
+		return
+	}
+	l := inner
+	seg := &SPE{Fn: fn, Start: l.Header, MaxVisits: 2}
+	seg.Stop = func(from, to *ssa.BasicBlock) bool { return (to == l.Header && l.Body[from]) || (l.Body[from] && !l.Body[to]) }
+	seg.Explore()
+	n, ok := 0, true
+	why := ""
+	for _, p := range seg.Paths {
+		if !(p.Term == "stop" && p.End == l.Header) {
+			continue
+		}
+		n++
+		rec := false
+		for _, ev := range p.Events {
+			if ev.Kind == EvMapUpd && strings.HasSuffix(ev.Key.String(), ".RemoteSrcPath") {
+				rec = true
+			}
+		}
+		// ... or it is in the set already (comma-ok lookup under the same key)
+		for _, lt := range p.Lits {
+			if at := lt.Atom; lt.Pol && at.Op == OpExtract && at.ID == 1 && at.Args[0].Op == OpLookup && len(at.Args[0].Args) > 1 && strings.HasSuffix(at.Args[0].Args[1].String(), ".RemoteSrcPath") {
+				rec = true
+			}
+		}
+		if !rec {
+			ok, why = false, litsString(p)
+		}
+	}
+	switch {
+	case n == 0:
+		a.und("LOC-all", "getFiles", "no iteration of the frame loop was explored", fn.Pos())
+	case ok:
+		a.ok("LOC-all", "getFiles", "the file of every frame takes part in the search for the roots", fn.Pos())
+	default:
+		a.bad("LOC-all", "getFiles", "a frame's file can be left out of the search for the roots ("+why+"): a root under which the dump has only such files is never detected and its frames stay unresolved although they exist locally", fn.Pos())
+	}
+}
+
+// locSplitRunes (LOC-search/splitPath): the components splitPath returns are
+// made of the characters of the path: a character appended to a component is
+// a rune obtained by ranging over the path (string(rune) is the character),
+// never a single byte of it (string(byte) re-encodes every byte of a
+// multi-byte character, so a directory named "café" is probed as "cafÃ©").
+func locSplitRunes(c *Ctx, a *flAgg) {
+	fn := c.L.Func("stack", "", "splitPath")
+	if fn == nil {
+		return
+	}
+	n, bad := 0, ""
+	for _, b := range fn.Blocks {
+		for _, in := range b.Instrs {
+			cv, ok := in.(*ssa.Convert)
+			if !ok {
+				continue
+			}
+			bt, ok := cv.Type().Underlying().(*types.Basic)
+			if !ok || bt.Kind() != types.String {
+				continue
+			}
+			ft, ok := cv.X.Type().Underlying().(*types.Basic)
+			if !ok || ft.Info()&types.IsInteger == 0 {
+				continue
+			}
+			n++
+			if ft.Kind() == types.Uint8 {
+				bad = "a single byte of the path is converted with string(...)"
+			}
+		}
+	}
+	if bad != "" {
+		a.bad("LOC-search", "splitPath/characters", bad+": the bytes of a multi-byte character are re-encoded one by one, so a root or module directory with a non-ASCII name is probed under a different name and never found", fn.Pos())
+	} else {
+		a.ok("LOC-search", "splitPath/characters", fmt.Sprintf("components are built from the runes of the path or from substrings of it (%d rune conversions)", n), fn.Pos())
 	}
 }
 
